@@ -1,5 +1,6 @@
 """C10 - offer lifecycle: wait, repetition and cyclic phases; nothing follows a StopOffer."""
 import asyncio
+import random
 
 import someip.config as C
 import someip.header as H
@@ -54,16 +55,51 @@ def simple_service_stop_announce():
         loop.close()
 
 
+def directed_moved_endpoint(r):
+    """A service is withdrawn and announced again with the same ids and OTHER options (it moved to another port / protocol):
+    every offer, find answer and StopOffer carries the options of the instance that sends it."""
+    from .. import conv
+    T, MS = scen.T, scen.MS
+    cfg = list(scen.timings(r))
+    cfg[4] = r.choice([0, 1, 2])
+    cfg[5] = r.choice([10 * MS, T // 8])
+    cfg[6] = r.choice([0, T // 2, T])
+    cfg[11] = r.choice([0, 5 * MS])
+    a = C.Service(0x1111, 1, 1, 7, eventgroups=frozenset({5, 6}), options_1=(scen.ep_opt(8, 5001),))
+    b = C.Service(0x1111, 1, 1, 7, eventgroups=frozenset({5, 6}),
+                  options_1=(scen.ep_opt(8, r.choice([5001, 5002]), tcp=r.random() < 0.5),) if r.random() < 0.8 else (),
+                  options_2=(scen.ep_opt(9, 5003),) if r.random() < 0.3 else ())
+    if (b.options_1, b.options_2) == (a.options_1, a.options_2):
+        b = C.Service(0x1111, 1, 1, 7, eventgroups=frozenset({5, 6}), options_1=(scen.ep_opt(8, 5002),))
+    insts = [(1, conv.s_service(a), []), (2, conv.s_service(b), [])]
+    d0 = r.choice([cfg[0], cfg[1]])
+    peers = {1: scen.Peer(1)}
+    events = [(0, (1, [17, 1])), (0, (1, [0]))]
+    t1 = d0 + r.choice([T // 4, T, 2 * T])
+    events.append((t1, (1, [18, 1, True])))
+    t2 = t1 + r.choice([0, 1, T // 4, T])
+    events.append((t2, (1, [17, 2])))
+    for _ in range(r.randint(1, 3)):
+        tf = r.choice([t1 - T // 8, t2 + d0 + T // 8, t2 + d0 + T, t2 + 2 * T])
+        events.append((max(1, tf), (0, 1, r.random() < 0.4, peers[1].datagram([C.Service(0x1111).create_find_entry(3)], False))))
+    if r.random() < 0.5:
+        events.append((t2 + 3 * T, (1, [r.choice([16, 1])])))
+    events.sort(key=lambda e: e[0])
+    return dict(cfg=tuple(cfg), insts=insts, draws=[d0] * 64, events=events, end=t2 + 5 * T, rev=r.random() < 0.3, fuel=20000)
+
+
 def run(ctx):
     r = ctx.rng
     quick = ctx.tier == "quick"
     ctx.rule = ("timing grid (initial-delay window, repetitions 0-4, base delay, cyclic period or none, TTL finite/infinite, collection timeout 0/1 tick/5 ms) x "
                 "1-3 instances x announcer stop/start, stop_announce/announce, protocol stop/start, connection loss at phase boundaries +-1 tick and anywhere x "
                 "FindService (unicast/multicast) and Subscribe traffic; complete traces compared with the model; implementation trace judged by check_C10; plus "
-                "SimpleService.start_announce/stop_announce against a real announcer; non-trivial = distinct scenario with at least one transmission")
+                "a service withdrawn and announced again with the same ids and other options; SimpleService.start_announce/stop_announce against a real announcer; non-trivial = distinct scenario with at least one transmission")
     ctx.assumptions = ["an instance is announced at most once at a time", "schedule clauses are judged when the oracle draws are all equal (otherwise only the model comparison applies)"]
     n = 300 if quick else 10000
     scs = stackprop.corpus_scenarios("C10") + [scen.server_scenario(r) if k % 2 else scen.lifecycle_scenario(r) for k in range(n)]
+    r2 = random.Random(ctx.seed * 7919 + 10)      # a stream of its own: the scenarios above stay what they were
+    scs += [directed_moved_endpoint(r2) for _ in range(30 if quick else 1000)]
     stackprop.run_scenarios(ctx, scs, 3010, CODES, known_codes={15: "F15"}, what="offer lifecycle")
     exc = simple_service_stop_announce()
     ctx.case("simple-service-stop-announce", kind="simple-service-helper")
